@@ -1541,9 +1541,14 @@ func (is *iterScanner) Scan(dest ...interface{}) error {
 	// slices of dest
 	i := 0
 	var err error
-	for _, col := range iter.meta.columns {
+	for colIdx, col := range iter.meta.columns {
+		if colIdx >= len(is.cols) {
+			err = fmt.Errorf("gocql: column count changed while iterating: have %d want %d", len(is.cols), len(iter.meta.columns))
+			break
+		}
 		var n int
-		n, err = scanColumn(is.cols[i], col, dest[i:])
+		// is.cols holds one entry per column, dest one entry per tuple element
+		n, err = scanColumn(is.cols[colIdx], col, dest[i:])
 		if err != nil {
 			break
 		}
